@@ -455,7 +455,7 @@ def c04(tier, repo=None):
                 ("shapes", dict(Shapes=others, NatFam="four", OCs=[2], InFam="two", MaxNodes=3, AllowFail=True, AllowDup=True), 3500),
                 # fan-in widths 4, 5, 6 (mixed native forms); workflow field mappings with a run-time check from a map source that
                 # stream-native producers emit one key per chunk
-                ("fmap", dict(Shapes=["fmap"], NatFam="six", OCs=[1, 2, 3], InFam="three", MaxNodes=2, AllowFail=True), 2500),
+                ("fmap", dict(Shapes=["fmap", "fmapn"], NatFam="six", OCs=[1, 2, 3], InFam="three", MaxNodes=2, AllowFail=True), 3000),
                 # a NAMED map type on the edge (as chunk type / nested in a map[string]any chunk), produced in >= 2 chunks, consumed by every
                 # native-form subset incl. invoke-only
                 ("nmap", dict(Shapes=["nmap", "nmapn"], NatFam="six", OCs=[1, 2, 3], InFam="two", MaxNodes=2), None),
@@ -474,7 +474,7 @@ def c04(tier, repo=None):
         fams = [("chain2", dict(MaxNodes=2), 60000),
                 ("chain3", dict(MaxNodes=3, NatFam="six", OCs=[1, 2, 3], InFam="five"), 40000),
                 ("shapes", dict(Shapes=others, NatFam="six", OCs=[2, 3], InFam="three", MaxNodes=3, AllowFail=True, AllowDup=True), 60000),
-                ("fmap", dict(Shapes=["fmap"], NatFam="all15", OCs=[1, 2, 3], InFam="five", MaxNodes=2, AllowFail=True), 20000),
+                ("fmap", dict(Shapes=["fmap", "fmapn"], NatFam="all15", OCs=[1, 2, 3], InFam="five", MaxNodes=2, AllowFail=True), 30000),
                 ("nmap", dict(Shapes=["nmap", "nmapn"], NatFam="all15", OCs=[1, 2, 3], InFam="five", MaxNodes=2, AllowFail=True), 20000),
                 ("handlers", dict(MaxNodes=2, NatFam="six", OCs=[2], InFam="three", Handlers=["none", "val", "str"], AllowAny=True, AllowFail=True), 40000),
                 ("nil", dict(Shapes=["nil1", "nil2", "nilif", "nilin", "nilbr"], NatFam="six", OCs=[1, 2, 3], InFam="three", MaxNodes=3, AllowFail=True), 40000),
